@@ -13,7 +13,7 @@ else
   (cd $d && patch -p1 -s < "$1") || { echo "mutate: patch failed"; rm -rf $d; exit 3; }
 fi
 set +e
-VERIF_REPO=$d "$(dirname "$(readlink -f "$0")")"/check $prop quick
+VERIF_NO_EVIDENCE=1 VERIF_REPO=$d "$(dirname "$(readlink -f "$0")")"/check $prop quick
 rc=$?
 rm -rf $d
 echo "mutate: check exit $rc"
